@@ -231,7 +231,7 @@ def _z3_in_child(pc, goal, ms):
     return "unknown"
 
 
-def solve(pc, goal, want_model=True, z3_ms=None, cvc5_ms=None, hard=False):
+def solve(pc, goal, want_model=True, z3_ms=None, cvc5_ms=None, hard=False, direct=False):
     """Decide pc => goal.  Returns (status, model_or_None, secs, backend, note).
     hard=True: the main z3 query runs in a killable child (string-heavy units: z3 does not always honour its timeout)."""
     t0 = time.time()
@@ -242,7 +242,11 @@ def solve(pc, goal, want_model=True, z3_ms=None, cvc5_ms=None, hard=False):
             return "discharged", None, time.time() - t0, "simplify", "goal is a hypothesis"
     # (2) hypotheses that directly share an uninterpreted symbol with the goal often suffice, and keep the string
     #     solver away from the unrelated bulk of a long path condition (unsat of a subset carries over)
+    #     (direct=True: a unit whose queries are small and quick may skip the two weaker attempts - when they cannot
+    #      succeed they only cost their timeouts)
     try:
+        if direct:
+            raise LookupError("direct")
         gs = _symbols(goal)
         sub = [c for c in pc if _symbols(c) & gs]
         if gs and 0 < len(sub) < len(pc):
@@ -256,7 +260,7 @@ def solve(pc, goal, want_model=True, z3_ms=None, cvc5_ms=None, hard=False):
     except Exception:
         pass
     try:
-        ab = _arith_abstraction(pc, goal)
+        ab = None if direct else _arith_abstraction(pc, goal)
     except Exception:
         ab = None
     if ab is not None and len(ab) < len(pc) + 1 + 64:
@@ -576,7 +580,7 @@ class SymCtx:
         if z3.is_true(goal):
             o.status, o.backend = "discharged", "simplify"
         else:
-            st, model, secs, be, note = solve(o.pc, goal, hard=getattr(self, "hard_timeouts", False))
+            st, model, secs, be, note = solve(o.pc, goal, hard=getattr(self, "hard_timeouts", False), direct=getattr(self, "direct_queries", False))
             o.status, o.model, o.secs, o.backend, o.note = st, model, secs, be, note
             self.solver_secs[be if be in self.solver_secs else "z3"] += secs
         if len(self.obligations) < 100000:
